@@ -25,9 +25,9 @@ LEVEL_NOTE = ('trusted: Python list / slice.indices semantics, CPython ast; docu
 RULE = ('enum: case = (kind, n, start, stop, m, layout, entry); non-trivial = distinct cases whose model result differs from the old '
         'list; states = distinct start/result sources; traces = cases compared with the list model')
 ASSUMPTIONS = ['norm=True, pars auto', 'elements are simple names / minimal statements so that only container semantics is exercised']
-BOUNDS = {'quick': '47 kinds (6 with multi-byte elements, 4 mixing positional/keyword/starred arguments, 4 with op_side / set_norm options), n in 0..3, all (start, stop) in {-(n+2)..n+2, end}^2, m in 0..2, bare layout, entries put_slice/view-slice/put(one=False); '
+BOUNDS = {'quick': '51 kinds (6 with multi-byte elements, 4 mixing positional/keyword/starred arguments, 4 single fields interleaved with the other field of a call / class header, 4 with op_side / set_norm options); histories of 2 operations through one view object (n=3, every window, 9 operation kinds), n in 0..3, all (start, stop) in {-(n+2)..n+2, end}^2, m in 0..2, bare layout, entries put_slice/view-slice/put(one=False); '
                    'single-index put/delete/insert/append/extend/prepend/prextend/attribute assignment; multi-line and stair (continuation line at a smaller column) layouts for bounds in 0..n',
-          'thorough': 'n up to 4, all entries x both layouts for every bound pair, fst and ast code forms'}
+          'thorough': 'n up to 4, all entries x both layouts for every bound pair, fst and ast code forms; view histories of 3 operations on 13 kinds (n=3), of 2 operations with n=4'}
 
 
 class Kind:
@@ -486,6 +486,10 @@ def run_subview_cases(fst, kind, n, res, tier):
                     judge(fst, kind, cid, src, root, exp, exc, res, params, rep, True)
 
 
+VIEWHIST_DEEP = ('List.elts', 'Call._args', 'Call.keywords(interleaved)', 'Module.body', 'If.orelse', 'Try.handlers', 'Dict._all', 'BoolOp.values',
+                 'Compare._all', 'arguments._all', 'With.items', 'MatchOr.patterns', 'Global.names')
+
+
 def _view_ops(L):
     """operation menu through a view whose window currently has L elements: (name, arity of new code)"""
     out = [('append', None), ('prepend', None), ('extend', None)]
@@ -510,7 +514,7 @@ def run_viewhist_cases(fst, kind, n, res, tier):
     if n < max(kind.minlen, 2) or O.try_parse(src) is None:
         return
     f = kind.field
-    depth = 2 if tier == 'quick' else 3
+    depth = 3 if (tier == 'thorough' and n == 3 and kind.name in VIEWHIST_DEEP) else 2
     news = [kind.new[0], kind.new[1], kind.new[0] if len(kind.new) < 3 else kind.new[2]]
 
     def model(lst, a, b, op, arg, x, y):
